@@ -632,6 +632,11 @@ func (s *safety) dischargePanicSite(p *Path, ix *pathIndex, e *Event, conds []Co
 			}
 		}
 		return false, "type assertion without comma-ok on " + x.Pretty()
+	case "negcount":
+		if nonNegative(e.Args[0], conds) {
+			return true, "count is non-negative"
+		}
+		return false, "(*Buffer).Next panics on a negative count: " + e.Args[0].Pretty() + " may be negative"
 	case "divide", "shift":
 		return false, e.Mode + " by a non-constant " + e.Args[1].Pretty()
 	case "panic":
@@ -1348,6 +1353,58 @@ func (a *Analysis) CheckC18(rep *Report) {
 				rep.Ob("O1-prefix-guarded", fmt.Sprintf("%s:%s(%s)", key, inner, ord), guarded, a.P.Pos(e.Pos),
 					fmt.Sprintf("%s is written as a length prefix without a dominating overflow check: a value longer than the prefix can represent wraps around and the full data follows", e.Src.Pretty()))
 			})
+			// O5: a count kept in the prefix's own type (`var n T; for … { n++ }`, written or patched in afterwards) wraps
+			// like a narrowing conversion does: the number of iterations must be shown to fit
+			loopsByID := map[int]*Event{}
+			walkEvents(p.Events, func(e *Event, _ int) {
+				if e.Kind == EvRep {
+					loopsByID[e.LoopID] = e
+				}
+			})
+			walkWithConds(p, func(e *Event, conds []Cond, reps []*Event) {
+				if (e.Kind != EvWriteInt && e.Kind != EvPatch) || e.Src == nil {
+					return
+				}
+				v := stripCT(e.Src)
+				for v.Op == "conv" && len(v.Args) == 1 {
+					v = stripCT(v.Args[0])
+				}
+				if v.Op != "loopout" || v.Type == nil || len(v.Args) != 1 {
+					return
+				}
+				bt, isB := v.Type.Underlying().(*types.Basic)
+				if !isB || bt.Info()&types.IsInteger == 0 {
+					return
+				}
+				bits, uns := intBits(bt)
+				if bits == 0 || bits >= 64 {
+					return
+				}
+				loop := loopsByID[v.ID]
+				if loop == nil {
+					return
+				}
+				counts := false
+				for _, arm := range loop.Iter {
+					if nx := arm.Next[v.Name]; nx != nil {
+						lv := &Val{Op: "loopvar", ID: v.ID, Name: v.Name, Args: v.Args}
+						if d, okD := affOf(nx).Add(affOf(lv), -1).IsConst(); okD && d > 0 {
+							counts = true
+						}
+					}
+				}
+				if !counts {
+					return
+				}
+				max := int64(1)<<uint(bits) - 1
+				if !uns {
+					max = int64(1)<<uint(bits-1) - 1
+				}
+				fits := loop.Count != nil && !affOf(loop.Count).Top && condHolds(conds, loop.Count, "<=", mkInt(max))
+				nprefix++
+				rep.Ob("O5-counter-in-prefix-type-fits", fmt.Sprintf("%s:%s", key, originName(e.Fn)), fits, a.P.Pos(e.Pos),
+					fmt.Sprintf("%s is a counter of type %s incremented once per element and written as the prefix: nothing shows that the number of elements (%s) fits, so it wraps around silently", e.Src.Pretty(), typeStr(v.Type), valOrNil(loop.Count)))
+			})
 			// collect failing guard conditions on this path (top-level conds cover aborted iterations too)
 			for _, c := range p.Conds {
 				v := c.V
@@ -1414,7 +1471,7 @@ func (a *Analysis) CheckC18(rep *Report) {
 		if !hasEvent(pp.paths, isRead) || pp.err != nil {
 			continue
 		}
-		rej := a.spuriousRejections(pp.paths)
+		rej := a.spuriousRejections(pp.paths, pp.fn.TypeParams().Len() > 0 && len(pp.fn.TypeArgs()) == 0)
 		rep.Ob("O3-reader-accepts-values-at-the-limit", FuncName(pp.fn), len(rej) == 0, a.P.Pos(pp.fn.Pos()),
 			"the reader can refuse a complete value: "+strings.Join(rej, "; "))
 		// O4: a list at the limit has as many elements as the largest prefix says: the loop that reads them must be one
